@@ -215,6 +215,21 @@ def gen_cases(tier, seed):
                 spec['plan']['faults'] = [{'at': f't0/s3:GetObject:{8 * rng.randrange(0, 3)}#0', 'phase': 'body', 'bytes': rng.randrange(0, 8),
                                            'kind': 'connreset', 'tag': 'FAULT-w'}]
             cases.append(spec)
+    # ... and one preemption INSIDE each read-modify-write statement of that code (the defer queue's frontier, the count of
+    # outstanding parts that triggers the final task): a lost update there loses or duplicates data
+    from .. import yieldinj
+
+    for site in yieldinj.rmw_sites(['download.py', 'utils.py']):
+        if not site[2].startswith(('DeferQueue.', 'CountCallbackInvoker.', 'SlidingWindowSemaphore.')):
+            continue
+        for nth in ((0, 1, 2) if quick else (0, 1, 2, 3, 4, 5)):
+            for rep in range(1 if quick else 3):
+                dst = rng.choice(['nonseekable', 'fifo', 'seekable', 'path']) if not site[2].startswith(('DeferQueue', 'Sliding')) else rng.choice(['nonseekable', 'fifo'])
+                cfg = dict(multipart_threshold=8, multipart_chunksize=8, io_chunksize=rng.choice([2, 4]), max_request_concurrency=rng.choice([2, 3, 4]),
+                           max_in_memory_download_chunks=rng.choice([2, 3, 4]), max_io_queue_size=rng.choice([1, 2, 1000]), num_download_attempts=2)
+                w = {'file': site[0], 'lineno': site[1], 'name': f'rmw:{site[0]}:{site[1]}:{site[2]}', 'nth': nth, 'action': 'pause', 'wait': 0.2, 'rmw': True}
+                cases.append({'seed': rng.randrange(1 << 30), 'config': cfg, 'transfers': [{'kind': 'download', 'dst': dst, 'size': rng.choice([24, 33, 41])}],
+                              'yield': {'p': 0.0, 'window': w}, 'plan': {'delay_p': rng.choice([0.0, 0.3])}, 'family': 'rmw-window'})
     # executor / subscriber flavours: everything inline in the submitting thread (NonThreadedExecutor, what use_threads=False
     # selects), no subscribers at all, and duck-typed subscribers offering only some callbacks
     for s in cases:
